@@ -191,3 +191,29 @@ def always_raises(stmts: Sequence[ast.stmt]) -> bool:
     if isinstance(last, ast.With):
         return always_raises(last.body)
     return False
+
+
+def all_defs(fn: ast.AST, name: str) -> List[ast.expr]:
+    out = []
+    for a in assigns_to(fn, name):
+        if isinstance(a, (ast.Assign, ast.AnnAssign, ast.AugAssign)) and a.value is not None:
+            out.append(a.value)
+    return out
+
+
+def inline_locals_multi(fn: ast.AST, e: ast.expr, depth: int = 4, _stack: Sequence[str] = ()) -> ast.expr:
+    """Like inline_locals but a local with several definitions is replaced by the tuple of all of them
+    (a may-provenance over-approximation: every definition that could reach the use)."""
+    if depth == 0:
+        return e
+
+    class T(ast.NodeTransformer):
+        def visit_Name(self, node: ast.Name) -> ast.AST:
+            if isinstance(node.ctx, ast.Load) and node.id not in _stack:
+                ds = all_defs(fn, node.id)
+                if ds:
+                    parts = [inline_locals_multi(fn, d, depth - 1, tuple(_stack) + (node.id,)) for d in ds]
+                    return parts[0] if len(parts) == 1 else ast.Tuple(elts=parts, ctx=ast.Load())
+            return node
+
+    return T().visit(clone(e))
